@@ -14,7 +14,7 @@ pub fn spec() -> Spec {
         case_cap_s: |t| t.pick(120, 1200),
         rule: "one case per (graph, ordered source-sink pair, entry point). Family 'digraph': all simple digraphs on <= 4 vertices and on 5 vertices with <= E edges (thorough: all), each also under a sparse non-monotone vertex labeling; family 'forward': all digraphs with edges i->j, i<j, on N vertices through the directed entry points and all undirected graphs on N vertices through the undirected entry points (this family is what exercises flow cancellation); family 'sparse7' (quick tier; subsumed by 'forward' at the thorough tier): all undirected graphs on 7 vertices with exactly 9 edges, edge cuts only (9 edges on 7 vertices is the first size at which cancelling flow along an antiparallel twin can go wrong); family 'recorded': every network handed to min_vertex_cut_undirected while simplify runs on a corpus input (hook), checked by a Menger certificate. Source and sink are endpoints of some edge, distinct, and for vertex cuts not joined by an edge. Oracle: minimum over all source-side vertex subsets (edge cuts) / all subsets of the other vertices (vertex cuts); cut separates, has minimum size, no repeats, avoids source and sink; inside + source = vertices reachable from the source after removing the cut. Non-trivial = minimum cut size >= 1.",
         assumptions: &["a vertex that touches no edge is not a vertex of the graph (the functions take an edge list)"],
-        bounds: |t| json!({"digraph_max_vertices": 4, "digraph_5_vertices_max_edges": if t.is_thorough() { 20 } else { 6 }, "forward_vertices": t.pick(6, 7), "undirected_vertices": t.pick(6, 7), "undirected_7_vertices_edge_counts_quick": [9], "host_family": {"hosts": "cube, grids 2x4 and 3x3, Petersen, Wagner, K44, wheel 8, pentagonal prism, two K4 joined by a path (8-10 vertices)", "deleted_edges": t.pick(2, 3), "orientations": 3, "labelings": 2}}),
+        bounds: |t| json!({"digraph_max_vertices": 4, "digraph_5_vertices_max_edges": if t.is_thorough() { 20 } else { 6 }, "forward_vertices": t.pick(6, 7), "undirected_vertices": t.pick(6, 7), "undirected_7_vertices_edge_counts_quick": [9], "routes_family": {"what": "3 routes through a 3 x 3 grid + one detour over 3 fresh vertices ending anywhere in the grid, 14 vertices, 64 labelings (every position of each detour vertex among the grid vertices of its depth)", "networks": 32886}, "layered_family": {"widths": if t.is_thorough() { json!([[3,3,3],[2,3,3,2]]) } else { json!([[3,3,3]]) }, "what": "all subsets of the edges between consecutive layers, one source-sink query each"}, "host_family": {"hosts": "cube, grids 2x4 and 3x3, Petersen, Wagner, K44, wheel 8, pentagonal prism, two K4 joined by a path (8-10 vertices)", "deleted_edges": t.pick(2, 3), "orientations": 3, "labelings": 2}}),
     }
 }
 
@@ -42,6 +42,10 @@ fn check_graph(ctx: &mut Ctx, family: &str, n: usize, edges: &[(usize, usize)], 
 }
 
 fn check_graph_sel(ctx: &mut Ctx, family: &str, n: usize, edges: &[(usize, usize)], label: &[usize], directed_entry: bool, undirected_entry: bool, vertex_cuts: bool) {
+    check_graph_pair(ctx, family, n, edges, label, directed_entry, undirected_entry, vertex_cuts, None)
+}
+
+fn check_graph_pair(ctx: &mut Ctx, family: &str, n: usize, edges: &[(usize, usize)], label: &[usize], directed_entry: bool, undirected_entry: bool, vertex_cuts: bool, only: Option<(usize, usize)>) {
     let touched: BTreeSet<usize> = edges.iter().flat_map(|&(a, b)| [a, b]).collect();
     let unlabel = |x: usize| label.iter().position(|&l| l == x);
     for undirected in [false, true] {
@@ -58,6 +62,11 @@ fn check_graph_sel(ctx: &mut Ctx, family: &str, n: usize, edges: &[(usize, usize
             for t in 0..n {
                 if s == t || !touched.contains(&s) || !touched.contains(&t) {
                     continue;
+                }
+                if let Some(p) = only {
+                    if p != (s, t) {
+                        continue;
+                    }
                 }
                 let case = json!({"family": family, "n": n, "edges": edges, "labels": label, "source": s, "sink": t, "undirected": undirected});
                 ctx.announce(&case);
@@ -224,6 +233,159 @@ fn disjoint_paths(n: usize, edges: &[(usize, usize)], s: usize, t: usize) -> usi
 }
 
 /// family 'recorded': the networks simplify hands to min_vertex_cut_undirected on corpus inputs
+/// unit-capacity max flow on a DIRECTED graph by breadth-first augmenting paths; `vertex` = internally
+/// vertex-disjoint paths (split graph), else arc-disjoint paths.  Independent of the crate's code; its values are
+/// compared with the brute-force minimum on every network of the routes family that is small enough.
+fn max_flow_dir(n: usize, edges: &[(usize, usize)], s: usize, t: usize, vertex: bool) -> usize {
+    let m = 2 * n;
+    let mut cap: std::collections::HashMap<(usize, usize), i64> = std::collections::HashMap::new();
+    let mut adj: Vec<Vec<usize>> = vec![vec![]; m];
+    let mut add = |a: usize, b: usize, c: i64, cap: &mut std::collections::HashMap<(usize, usize), i64>, adj: &mut Vec<Vec<usize>>| {
+        *cap.entry((a, b)).or_insert(0) += c;
+        cap.entry((b, a)).or_insert(0);
+        if !adj[a].contains(&b) {
+            adj[a].push(b);
+        }
+        if !adj[b].contains(&a) {
+            adj[b].push(a);
+        }
+    };
+    let big = 1_000_000;
+    for v in 0..n {
+        add(2 * v, 2 * v + 1, if !vertex || v == s || v == t { big } else { 1 }, &mut cap, &mut adj);
+    }
+    let distinct: BTreeSet<(usize, usize)> = edges.iter().cloned().filter(|&(a, b)| a != b).collect();
+    for (a, b) in distinct {
+        add(2 * a + 1, 2 * b, if vertex { big } else { 1 }, &mut cap, &mut adj);
+    }
+    let (src, dst) = (2 * s + 1, 2 * t);
+    let mut flow = 0;
+    loop {
+        let mut prev = vec![usize::MAX; m];
+        prev[src] = src;
+        let mut q = std::collections::VecDeque::from([src]);
+        while let Some(x) = q.pop_front() {
+            for &y in &adj[x] {
+                if prev[y] == usize::MAX && cap[&(x, y)] > 0 {
+                    prev[y] = x;
+                    q.push_back(y);
+                }
+            }
+        }
+        if prev[dst] == usize::MAX {
+            return flow;
+        }
+        let mut y = dst;
+        while y != src {
+            let x = prev[y];
+            *cap.get_mut(&(x, y)).unwrap() -= 1;
+            *cap.get_mut(&(y, x)).unwrap() += 1;
+            y = x;
+        }
+        flow += 1;
+        if flow > 4 * n {
+            return flow;
+        }
+    }
+}
+
+/// one directed source-sink query on a network too large for the subset oracle: Menger certificate
+fn check_flow_case(ctx: &mut Ctx, family: &str, n: usize, edges: &[(usize, usize)], label: &[usize], s: usize, t: usize, cross_check: bool) {
+    let case = json!({"family": family, "n": n, "edges": edges, "labels": label, "source": s, "sink": t, "undirected": false});
+    ctx.announce(&case);
+    ctx.count(true);
+    let weight = (n * 100 + edges.len()) as u64;
+    let unlabel = |x: usize| label.iter().position(|&l| l == x);
+    let passed: Vec<(usize, usize)> = edges.iter().map(|&(a, b)| (label[a], label[b])).collect();
+    let eset: BTreeSet<(usize, usize)> = edges.iter().cloned().collect();
+    let kv = max_flow_dir(n, edges, s, t, true);
+    let ke = max_flow_dir(n, edges, s, t, false);
+    if cross_check && n <= 12 {
+        // brute force over vertex subsets (harness self-check of the flow oracle)
+        let others: Vec<usize> = (0..n).filter(|&v| v != s && v != t).collect();
+        let mut best = usize::MAX;
+        for cm in 0u32..(1 << others.len()) {
+            if (cm.count_ones() as usize) < best {
+                let rv: BTreeSet<usize> = (0..others.len()).filter(|&k| cm >> k & 1 == 1).map(|k| others[k]).collect();
+                if !reach(n, edges, s, &BTreeSet::new(), &rv)[t] {
+                    best = rv.len();
+                }
+            }
+        }
+        assert_eq!(best, kv, "harness: flow oracle and subset oracle disagree on {:?}", case);
+    }
+    // vertex cut
+    if !eset.contains(&(s, t)) {
+        ctx.ops(1);
+        let e2 = passed.clone();
+        match ctx.guard(|| min_vertex_cut(e2, label[s], label[t])) {
+            Err(m) => ctx.violation("panic:vertex-cut", case.clone(), m, weight),
+            Ok(c) => {
+                let mut why = None;
+                let mut cv: BTreeSet<usize> = BTreeSet::new();
+                for &v in &c.cut_vertices {
+                    match unlabel(v) {
+                        Some(x) if x != s && x != t => {
+                            if !cv.insert(x) {
+                                why = Some(format!("cut vertex {} is repeated", v));
+                            }
+                        }
+                        Some(_) => why = Some(format!("cut contains the source or the sink ({})", v)),
+                        None => why = Some(format!("cut vertex {} is not a vertex of the graph", v)),
+                    }
+                }
+                if why.is_none() {
+                    let seen = reach(n, edges, s, &BTreeSet::new(), &cv);
+                    let inside: BTreeSet<Option<usize>> = c.inside_vertices.iter().map(|&v| unlabel(v)).chain([Some(s)]).collect();
+                    let touched: BTreeSet<usize> = edges.iter().flat_map(|&(a, b)| [a, b]).collect();
+                    let exp: BTreeSet<Option<usize>> = (0..n).filter(|&v| seen[v] && touched.contains(&v)).map(Some).collect();
+                    if seen[t] {
+                        why = Some("the sink is still reachable after removing the cut".into());
+                    } else if cv.len() != kv {
+                        why = Some(format!("cut has {} vertices, the minimum is {} ({} internally disjoint paths exist)", cv.len(), kv, kv));
+                    } else if inside != exp {
+                        why = Some(format!("inside vertices {:?} (+ source) are not the vertices reachable from the source", c.inside_vertices));
+                    }
+                }
+                if let Some(w) = why {
+                    ctx.violation("vertex-cut", case.clone(), format!("cut_vertices = {:?}: {}", c.cut_vertices, w), weight);
+                }
+            }
+        }
+    }
+    // edge cut
+    ctx.ops(1);
+    let e2 = passed.clone();
+    match ctx.guard(|| min_edge_cut(e2, label[s], label[t])) {
+        Err(m) => ctx.violation("panic:edge-cut", case.clone(), m, weight),
+        Ok(c) => {
+            let mut why = None;
+            let mut ce: BTreeSet<(usize, usize)> = BTreeSet::new();
+            for &(a, b) in &c.cut_edges {
+                match (unlabel(a), unlabel(b)) {
+                    (Some(x), Some(y)) if eset.contains(&(x, y)) => {
+                        if !ce.insert((x, y)) {
+                            why = Some(format!("cut edge ({},{}) is repeated", a, b));
+                        }
+                    }
+                    _ => why = Some(format!("cut edge ({},{}) is not an edge of the graph", a, b)),
+                }
+            }
+            if why.is_none() {
+                let seen = reach(n, edges, s, &ce, &BTreeSet::new());
+                if seen[t] {
+                    why = Some("the sink is still reachable after removing the cut".into());
+                } else if ce.len() != ke {
+                    why = Some(format!("cut has {} edges, the minimum is {} ({} arc-disjoint paths exist)", ce.len(), ke, ke));
+                }
+            }
+            if let Some(w) = why {
+                ctx.violation("edge-cut", case.clone(), format!("cut_edges = {:?}: {}", c.cut_edges, w), weight);
+            }
+        }
+    }
+}
+
 fn recorded_networks(ctx: &mut Ctx) {
     use crate::props::common3d::corpus;
     use crate::refmodel::dsym::{from_dsym, to_partial_dsym};
@@ -394,6 +556,128 @@ fn run(ctx: &mut Ctx) {
                     check_graph(ctx, &fam, n, &both, &shuffled[..n], true, false);
                 }
                 ctx.add("host_graphs", 1);
+            }
+        }
+    }
+    // family layered: every directed network source -> layer 1 -> layer 2 -> layer 3 -> sink with layers of width
+    // 3, 3, 3 [and 2, 3, 3, 2 at the thorough tier], all subsets of the edges between consecutive inner layers,
+    // plus every single backward or skipping edge on a spread of them; one query per network (vertex cut and edge
+    // cut from source to sink).  Augmenting paths that undo two or more earlier routes only occur on networks
+    // with several long routes, which the small exhaustive families do not contain.
+    {
+        let shapes: Vec<Vec<usize>> = if tier.is_thorough() { vec![vec![3, 3, 3], vec![2, 3, 3, 2]] } else { vec![vec![3, 3, 3]] };
+        for widths in shapes {
+            let mut layers: Vec<Vec<usize>> = vec![];
+            let mut next_id = 2usize; // 0 = source, 1 = sink
+            for &w in &widths {
+                layers.push((next_id..next_id + w).collect());
+                next_id += w;
+            }
+            let n = next_id;
+            let mut fixed: Vec<(usize, usize)> = vec![];
+            for &v in &layers[0] {
+                fixed.push((0, v));
+            }
+            for &v in layers.last().unwrap() {
+                fixed.push((v, 1));
+            }
+            let mut optional: Vec<(usize, usize)> = vec![];
+            for g in 0..layers.len() - 1 {
+                for &a in &layers[g] {
+                    for &b in &layers[g + 1] {
+                        optional.push((a, b));
+                    }
+                }
+            }
+            let m = optional.len();
+            // labels: identity and a permutation that reverses the order inside the layers
+            let ident: Vec<usize> = (0..n).collect();
+            let mut rev: Vec<usize> = vec![0, 1];
+            for l in &layers {
+                rev.extend(l.iter().rev());
+            }
+            for mask in 0u32..(1u32 << m) {
+                if !ctx.take() {
+                    continue;
+                }
+                let mut edges = fixed.clone();
+                edges.extend((0..m).filter(|&k| mask >> k & 1 == 1).map(|k| optional[k]));
+                let fam = "layered";
+                check_graph_pair(ctx, fam, n, &edges, &ident, true, false, true, Some((0, 1)));
+                if mask % 7 == 3 {
+                    check_graph_pair(ctx, fam, n, &edges, &rev, true, false, true, Some((0, 1)));
+                }
+                ctx.add("layered_networks", 1);
+            }
+        }
+    }
+    // family routes: unions of three source-sink routes through a 3 x 3 grid of inner vertices (one vertex per
+    // layer each, every multiset of 3 of the 27 routes) plus one detour source -> x -> y -> z -> (any grid vertex) over three
+    // fresh vertices: up to 14 vertices, several long routes sharing vertices, a path that re-enters the middle.
+    // Oracle: Menger certificate from an independent augmenting-path max flow (cross-checked against the
+    // subset oracle wherever the network has at most 12 vertices).
+    {
+        let grid = |l: usize, k: usize| 2 + 3 * l + k; // 0 = source, 1 = sink
+        let (x, y, z) = (11usize, 12usize, 13usize);
+        let n = 14usize;
+        let ident: Vec<usize> = (0..n).collect();
+        // labelings: breadth-first search visits the vertices of one depth in label order, so what matters is where
+        // each detour vertex stands among the grid vertices of its depth (the order inside a layer is already
+        // covered by taking all 27 routes): all 4 x 4 x 4 positions
+        let mut labelings: Vec<Vec<usize>> = vec![];
+        for px in 0..4usize {
+            for py in 0..4usize {
+                for pz in 0..4usize {
+                    let mut l = vec![0usize; n];
+                    l[0] = 0;
+                    l[1] = 1;
+                    for layer in 0..3 {
+                        for k in 0..3 {
+                            l[grid(layer, k)] = 100 * (layer + 1) + 10 * k + 5;
+                        }
+                    }
+                    l[x] = 100 + 10 * px;
+                    l[y] = 200 + 10 * py;
+                    l[z] = 300 + 10 * pz;
+                    labelings.push(l);
+                }
+            }
+        }
+        let stride = std::env::var("VERIF_C19_STRIDE").ok().and_then(|v| v.parse::<usize>().ok()).unwrap_or(1);
+        let mut idx = 0usize;
+        for r1 in 0..27usize {
+            for r2 in r1..27usize {
+                for r3 in r2..27usize {
+                    for target in 0..9usize {
+                        idx += 1;
+                        if idx % stride != 0 || !ctx.take() {
+                            continue;
+                        }
+                        let mut edges: BTreeSet<(usize, usize)> = BTreeSet::new();
+                        for r in [r1, r2, r3] {
+                            let (a, b, c) = (grid(0, r % 3), grid(1, (r / 3) % 3), grid(2, r / 9));
+                            edges.extend([(0, a), (a, b), (b, c), (c, 1)]);
+                        }
+                        edges.extend([(0, x), (x, y), (y, z), (z, 2 + target)]);
+                        let ev: Vec<(usize, usize)> = edges.into_iter().collect();
+                        for l in &labelings {
+                            check_flow_case(ctx, "routes", n, &ev, l, 0, 1, false);
+                            if ctx.nviolations() > 0 {
+                                break;
+                            }
+                        }
+                        ctx.add("route_networks", 1);
+                    }
+                }
+            }
+        }
+        // self-check of the flow oracle on the layered networks of width 2, 2, 2 (8 vertices, all edge subsets)
+        if ctx.shard == 0 {
+            let opt: Vec<(usize, usize)> = vec![(2, 4), (2, 5), (3, 4), (3, 5), (4, 6), (4, 7), (5, 6), (5, 7), (6, 3), (7, 2), (5, 2), (6, 4)];
+            for mask in 0u32..(1 << opt.len()) {
+                let mut e: Vec<(usize, usize)> = vec![(0, 2), (0, 3), (6, 1), (7, 1)];
+                e.extend((0..opt.len()).filter(|&k| mask >> k & 1 == 1).map(|k| opt[k]));
+                check_flow_case(ctx, "routes-selfcheck", 8, &e, &ident[..8], 0, 1, true);
             }
         }
     }
